@@ -249,13 +249,39 @@ pub struct DeepInputs;
 
 const DEPTHS: [usize; 4] = [200, 10_000, 200_000, 1_000_000];
 
+/// protocol and size of deep case `i` without building it (None past the end)
+fn deep_meta(i: usize) -> Option<(Proto, usize)> {
+  let per_proto = DEPTHS.len() * 6;
+  if i < 24 * per_proto {
+    Some((Proto::ALL[i / per_proto / 3], DEPTHS[(i % per_proto) / 6]))
+  } else {
+    let k = i - 24 * per_proto;
+    if k / 96 >= 5 {
+      return None;
+    }
+    Some((Proto::ALL[k % 8], [1_000usize, 15_000, 100_000, 1 << 20][(k / 24) % 4]))
+  }
+}
+
 /// (protocol, layer, token, expected footer, description) of deep case `i`
 fn deep_case(i: usize) -> Option<(Proto, Layer, String, Option<String>, String)> {
   let shapes = 6;
   let per_proto = DEPTHS.len() * shapes;
   let (pl, rest) = (i / per_proto, i % per_proto);
   if pl >= 8 * 3 {
-    return None;
+    // after the nested inputs: long FLAT inputs - many segments, many dots, long runs of one character
+    let k = i - 8 * 3 * per_proto;
+    let (proto, layer) = (Proto::ALL[k % 8], Layer::ALL[(k / 8) % 3]);
+    let n = [1_000usize, 15_000, 100_000, 1 << 20][(k / 24) % 4];
+    let (token, what): (String, &str) = match k / 96 {
+      0 => (".".repeat(n), "dots only"),
+      1 => (format!("{}AAAA{}", proto.header(), ".".repeat(n)), "right header, AAAA, then dots"),
+      2 => (format!("{}{}", proto.header(), "A.".repeat(n)), "right header, then one-character segments"),
+      3 => (format!("{}{}", proto.header(), "%41".repeat(n)), "right header, then percent-escapes"),
+      4 => (format!("{}{}.{}", proto.header(), "A".repeat(200), "=".repeat(n)), "footer segment of '=' characters"),
+      _ => return None,
+    };
+    return Some((proto, layer, token, None, format!("{} {} - {} ({})", proto.label(), layer.label(), what, n)));
   }
   let (proto, layer) = (Proto::ALL[pl / 3], Layer::ALL[pl % 3]);
   let (depth, shape) = (DEPTHS[rest / shapes], rest % shapes);
@@ -288,7 +314,16 @@ pub fn deep_child_main(args: &[String]) -> i32 {
   let only: Option<usize> = args.first().and_then(|a| a.parse().ok());
   let worker = std::thread::Builder::new().stack_size(2 * 1024 * 1024).spawn(move || {
     let mut i = only.unwrap_or(0);
-    while let Some((proto, layer, token, footer, desc)) = deep_case(i) {
+    let light = std::env::var("PV_HELPER_LIGHT").is_ok(); // the unoptimised build: leave the expensive protocols out
+    while let Some((mp, size)) = deep_meta(i) {
+      if light && only.is_none() && (!matches!(mp, Proto::V4L | Proto::V2L | Proto::V4P) || size > 100_000) {
+        i += 1;
+        continue;
+      }
+      let (proto, layer, token, footer, desc) = match deep_case(i) {
+        Some(x) => x,
+        None => break,
+      };
       println!("CASE {i} {desc}");
       let _ = std::io::stdout().flush();
       match parse_any(proto, layer, &token, footer.as_deref()) {
@@ -315,33 +350,7 @@ impl Sub for DeepInputs {
     "C09/deep-inputs-in-a-helper-process".into()
   }
   fn check(&self, c: &DeepCase, cl: &mut Classes) -> Verdict {
-    let exe = match std::env::current_exe() {
-      Ok(e) => e,
-      Err(_) => return Verdict::Discard,
-    };
-    let arg = if c.index == u32::MAX { "all".to_string() } else { c.index.to_string() };
-    let out = match std::process::Command::new(exe).args(["c09-deep", &arg]).output() {
-      Ok(o) => o,
-      Err(_) => return Verdict::Discard,
-    };
-    let text = String::from_utf8_lossy(&out.stdout).to_string();
-    let cases = text.lines().filter(|l| l.starts_with("CASE ")).count();
-    cl.tag(format!("deep cases run: {}", if cases >= 500 { ">=500" } else { "<500" }));
-    cl.nontrivial(cases > 0);
-    if let Some(p) = text.lines().find(|l| l.starts_with("RESULT ") && l.contains(" PANIC ")) {
-      let idx: u32 = p.split(' ').nth(1).and_then(|x| x.parse().ok()).unwrap_or(0);
-      let desc = text.lines().find(|l| l.starts_with(&format!("CASE {idx} "))).unwrap_or("").to_string();
-      return Verdict::Violation { sig: format!("C09:panic:{}", p.split(' ').nth(3).unwrap_or("?")), detail: format!("{desc}: {p}") };
-    }
-    if !text.lines().any(|l| l == "DONE") {
-      // the helper died: the last announced case is the one that killed it
-      let last = text.lines().filter(|l| l.starts_with("CASE ")).last().unwrap_or("CASE ? (none announced)").to_string();
-      return Verdict::Violation {
-        sig: "C09:process-died-on-deep-input".into(),
-        detail: format!("the helper process ended with {:?} (stack overflow / abort - nothing a caller could catch) while parsing: {}", out.status, last),
-      };
-    }
-    Verdict::Pass
+    helper_verdict("C09", "c09-deep", c.index, cl)
   }
 }
 
@@ -588,6 +597,15 @@ pub fn subs() -> Vec<Box<dyn DynSub>> {
 }
 
 pub fn run(ctx: &Ctx) -> EvidenceMeta {
+  // before anything is parsed: an application whose own callbacks panic has been at work in this process (on a worker
+  // thread that died of it, and contained on this one) - untrusted tokens must still come back with Ok or Err
+  {
+    let km = keys::material(Proto::V4L, &SEED);
+    if let Ok(lk) = km.lib() {
+      let _ = std::thread::scope(|sc| sc.spawn(|| callbacks_misbehave(Proto::V4L, &lk, 3)).join());
+      let _ = callbacks_misbehave(Proto::V4L, &lk, 7);
+    }
+  }
   let max_len = if ctx.is_child() { 140 } else { 400 };
   let jobs: Vec<Job> = vec![
     Box::new(|| ctx.enumerate(&ByLength, length_cases(max_len), true)),
@@ -613,6 +631,7 @@ pub fn run(ctx: &Ctx) -> EvidenceMeta {
            arbitrary-text: generated Unicode, 0-6 segments, right header + base64-alphabet noise / random bytes / padding / trailing dots, footer segments that decode to JSON documents (key sets, deep nesting, many empty containers), their unbalanced relatives and special strings, 1 MiB inputs; \
            authentic-token-hostile-claims: authentically encrypted/signed payloads whose exp/nbf/other members carry calendar extremes (year 0000/9999 with offsets, leap seconds, 40 fraction digits), any well-formed or ill-formed timestamp, arbitrary JSON, or that are not objects / not JSON at all. \
            deep inputs: footer segments and authentic payloads nested 200 .. 1 000 000 levels deep, parsed on a 2 MiB-stack thread of a helper process that announces each case - if the helper dies, the announced case is the violation. \
+           The whole run happens after application callbacks (validators, Serialize impls) have panicked in this process, on a worker thread and on the main one. \
            Oracle: catch_unwind around the entry point; any unwind is a violation keyed by panic location. \
            Non-trivial = the input has the right header and a decodable payload (reaches the slicing code) or is a hex-key string; distinct by input."
       .into(),
